@@ -226,7 +226,7 @@ func (t *haTrack) ident(i int) string { return fmt.Sprintf("%d:%d", i, t.jt[i]) 
 // plus what the real code is expected to do in consequence (callbacks, loop bodies), in nominal time order.
 //
 //	events of a step:  k<i> kill | r<i>:<jt> restart (new process, at its offset in the next heartbeat window; r<i> = same join time)
-//	                   c<i> connections i<->leader lost | b<i> partition i<->leader | u<i> partition healed
+//	                   c<i> connections i<->leader lost | b<i> partition i<->leader (no connection, old or new) | u<i> partition healed
 //	                   d<i> lease API fails for i (renew deadline passes) | a<i> lease API back
 //	                   g resign (the leader's context is cancelled, ReleaseOnCancel)
 //	                   n<i> designated successor | h hold the election (nobody may acquire in this step)
@@ -349,10 +349,12 @@ func haCompileX(s *haScript) ([]string, bool, error) {
 			if k > 0 && t.alive[i] && t.started[i] < k {
 				emit("hb:%d", i)
 				if l := t.leaderOf[i]; l >= 0 && !t.alive[l] {
-					// ping fails, the reconnect is refused three times: RemoveLeader, 2.2 s later
-					t.leaderOf[i] = -1
+					// ping fails, the reconnect is refused three times (2.2 s); the leader service is kept (commit 39ec43d)
 					t.drift[i] += 2200
 					t.drifted = true
+				} else if b, ok := blockedWith[i]; ok && l == b {
+					// partitioned from its leader: ping fails, the reconnect is accepted, Register fails (0.4 s), every period
+					t.drift[i] += 400
 				}
 			}
 		}
@@ -436,15 +438,24 @@ func haCompileX(s *haScript) ([]string, bool, error) {
 				if !holderLeads() || t.holderI == i {
 					return nil, false, fmt.Errorf("%q needs a leader other than the instance", ev)
 				}
-				apart(i, t.holderI, 600)
 				if ev[0] == 'c' {
+					apart(i, t.holderI, 600)
 					emit("cut:%d:%d", i, t.holderI)
 				} else {
 					emit("blk:%d:%d", i, t.holderI)
 					blockedWith[i] = t.holderI
 				}
 			case 'u':
-				emit("ubl:%d:%d", i, blockedWith[i])
+				b, ok := blockedWith[i]
+				if !ok {
+					return nil, false, fmt.Errorf("%q without a partition", ev)
+				}
+				emit("ubl:%d:%d", i, b)
+				delete(blockedWith, i)
+				// its next heartbeat body registers again: before the leader's monitor body
+				if t.alive[b] && phase(i)+750 > phase(b)+int(haRebDelay/time.Millisecond) {
+					t.clash = true
+				}
 			case 'd':
 				emit("dn:%d", i)
 				if t.holderI == i && t.alive[i] && t.el[i] == 1 {
@@ -1292,10 +1303,19 @@ func haRunChild(op string) string {
 					fmt.Fprintln(os.Stderr, se.String())
 				}
 			}
-		case <-time.After(haDuration(toks) + 20*time.Second):
+		case <-time.After(haDuration(toks) + 40*time.Second):
 			cmd.Process.Kill()
 			<-done
 			res = "hang"
+			if attempt+1 < haMaxRetries {
+				if os.Getenv("VERIF_HA_DEBUG") != "" {
+					fmt.Fprintf(os.Stderr, "c10ha attempt %d: child timed out | %s\n", attempt, strings.Fields(op)[1])
+				}
+				continue // only a hang that persists counts
+			}
+		}
+		if os.Getenv("VERIF_HA_DEBUG") != "" {
+			fmt.Fprintf(os.Stderr, "c10ha attempt %d: %.60s | %s\n", attempt, res, strings.Fields(op)[1])
 		}
 		if strings.HasPrefix(res, "disturbed") && attempt+1 < haMaxRetries {
 			continue
@@ -1428,6 +1448,12 @@ func runC10Ha(c *Ctx) {
 	// connections between a follower and the leader are lost: the follower re-registers at its next heartbeat
 	add(mk(2, false, []int{0}, 6, "c1"), "cut")
 	add(mk(4, false, []int{1}, 6, "c3", "c0,c2"), "cut")
+	// a follower is cut off from the leader for one or two periods (every connection lost, no new one possible): the leader
+	// drops it, its own heartbeat bodies keep trying (finding F17, fixed by 39ec43d); numbered again one period after the heal
+	add(mk(3, false, []int{0}, 6, "b2", "u2"), "partition")
+	add(mk(4, true, []int{1}, 6, "b0", "-", "u0", "-"), "partition", "two-periods", "ties")
+	add(mk(4, false, []int{2}, 6, "b1,b3", "u1", "u3"), "partition")
+	add(mk(3, false, []int{0}, 0, "b1,k2", "u1"), "partition", "kill-follower")
 	// the leader restarts under the SAME identity (same join time) within the lease: followers re-register after a failed ping
 	layoutB = true
 	add(mk(3, false, []int{0}, 6, "k0,r0", "-"), "restart-leader-same-identity")
@@ -1460,7 +1486,17 @@ func runC10Ha(c *Ctx) {
 					dead = append(dead, i)
 				}
 			}
-			switch r := c.R.Intn(6); {
+			switch r := c.R.Intn(7); {
+			case r == 6 && len(live) > 0: // transient partition of a follower, one or two periods
+				v := live[c.R.Intn(len(live))]
+				steps = append(steps, fmt.Sprintf("b%d", v))
+				if c.R.Chance(40) {
+					steps = append(steps, "-")
+					st++
+				}
+				steps = append(steps, fmt.Sprintf("u%d", v))
+				st++
+				tg = append(tg, "partition")
 			case r == 0:
 				steps = append(steps, "-")
 			case r == 1 && len(live) > 0: // kill a follower
